@@ -1743,6 +1743,38 @@ Json IoHarness::gen_c06(uint64_t runseed, const std::string &tier) {
 		plan["table"] = d.to_json();
 	}
 	plan["config"] = gen_config(knob, true);
+	// A third of the runs store further keys through write_key before writing: what a table can hold is
+	// not only what a file could give it. Whatever write_key accepts is part of the table and must survive
+	// (lengths around the capacity of a card, for standard and for HIERARCH keys; quotes, blanks, slashes).
+	{
+		Rng kr(runseed, "c06keys");
+		if (kr.chance(0.35)) {
+			Json keys = Json::array();
+			size_t n = 1 + (size_t)kr.below(4);
+			for (size_t i = 0; i < n; i++) {
+				static const char *stdk[] = {"WK1", "WKEY2", "ABCDEFGH", "W-K_3"};
+				std::string key;
+				if (kr.chance(0.45)) key = stdk[kr.below(4)];
+				else { size_t len = 9 + (size_t)kr.below(kr.chance(0.7) ? 12 : 50); for (size_t c = 0; c < len; c++) key += (char)('A' + (c * 5 + len + i) % 26); }
+				size_t room = key.size() <= 8 ? 68 : (key.size() + 13 < 80 ? 80 - 13 - key.size() : 0);
+				std::string val;
+				int w = (int)kr.below(100);
+				size_t len = w < 30 ? room : w < 45 ? (room ? room - 1 : 0) : w < 60 ? room + 1 : w < 70 ? (room > 2 ? room - 2 : 0) : (size_t)kr.below(room + 1);
+				for (size_t c = 0; c < len; c++) val += (char)('a' + (c * 7 + i) % 26);
+				int deco = (int)kr.below(100);
+				if (!val.empty()) {
+					if (deco < 12) val[kr.below(val.size())] = '\'';
+					else if (deco < 20) val[val.size() - 1] = '\'';
+					else if (deco < 28) val[kr.below(val.size())] = '/';
+					else if (deco < 36) val[0] = ' ';
+					else if (deco < 42) val[kr.below(val.size())] = '&';
+				}
+				Json kv = Json::object(); kv["key"] = Json(key); kv["value"] = Json(val);
+				keys.push(kv);
+			}
+			plan["keys"] = keys;
+		}
+	}
 	Json ops = Json::array();
 	auto add = [&](const char *o) { Json j = Json::object(); j["op"] = Json(o); ops.push(j); };
 	add("disk");
@@ -1845,13 +1877,30 @@ void IoHarness::exec_c06(const Json &plan, Env &env) {
 		std::string g = golden["files"][plan.gets("shipped")].gets("digest");
 		if (hex64(sA.t.digest()) != g) { ctx.violate("C06|golden|read_fits|none|digest-changed", plan.gets("shipped") + ": recorded " + g + ", library loads " + hex64(sA.t.digest())); return; }
 	}
+	// ---- further keys through write_key: accepted ones belong to the table from here on
+	// (the C handles are loaded from the image and do not have them: they are compared with sA0)
+	const Snapshot sA0 = sA;
+	if (plan.has("keys")) {
+		size_t accepted = 0;
+		for (auto &kv : plan["keys"].a) {
+			std::string key = kv.gets("key"), val = kv.gets("value");
+			ctx.crumb("write_key|none|%zu-char key, %zu-char value", key.size(), val.size());
+			bool ok = false;
+			try { ok = A.get().write_key(key.c_str(), val); } catch (std::exception &) { ok = false; }
+			ctx.log.ev("write_key keylen=%zu vallen=%zu -> %s", key.size(), val.size(), ok ? "accepted" : "refused");
+			if (ok) accepted++;
+		}
+		ctx.count("c06:keys_offered", (int64_t)plan["keys"].size());
+		ctx.count("c06:keys_accepted", (int64_t)accepted);
+		if (accepted) { ctx.count("probe:table_with_keys_stored_through_write_key"); sA = snapshot(A.get()); }
+	}
 	bool nan = has_nan(sA.t);
 	const Json &ev = plan["eval"];
 	uint64_t eseed = (uint64_t)ev.geti("seed");
 	int epts = (int)ev.geti("points", 12);
 
 	// checks shared by every written image: independent parse, re-read, ==, evaluation
-	auto check_written = [&](const Bytes &out, const char *wop, bool mem) -> bool {
+	auto check_written = [&](const Bytes &out, const char *wop, bool mem, const Snapshot &sA) -> bool {
 		TableSpec dec;
 		std::string derr;
 		if (!decode_fits(out, dec, derr)) { ctx.violate(std::string("C06|layout|") + wop + "|none|not-in-documented-layout", derr); return false; }
@@ -1892,13 +1941,13 @@ void IoHarness::exec_c06(const Json &plan, Env &env) {
 			env.drain("write-b", false);
 			Bytes out;
 			if (!disk::get("/sim/b.fits", out)) { ctx.violate("C06|write|write_fits|none|no-file", ""); return; }
-			if (!check_written(out, "write_fits", false)) return;
+			if (!check_written(out, "write_fits", false, sA)) return;
 		} else if (kind == "mem") {
 			ctx.crumb("write_fits_mem|none|benign");
 			Bytes out;
 			try { auto pr = A.get().write_fits_mem(); out.assign((uint8_t *)pr.first, (uint8_t *)pr.first + pr.second); free(pr.first); }
 			catch (std::exception &e) { ctx.violate("C06|write|write_fits_mem|none|threw", clip(e.what(), 120)); return; }
-			if (!check_written(out, "write_fits_mem", true)) return;
+			if (!check_written(out, "write_fits_mem", true, sA)) return;
 		} else if (kind == "c_disk" || kind == "c_mem") {
 			struct splinetable h{nullptr};
 			disk::set_config(cfg);
@@ -1930,7 +1979,7 @@ void IoHarness::exec_c06(const Json &plan, Env &env) {
 				if (wrc) { ctx.violate(std::string("C06|write|") + wop + "|none|threw", "status " + std::to_string(wrc)); return; }
 				if (!disk::get("/sim/c.fits", out)) { ctx.violate(std::string("C06|write|") + wop + "|none|no-file", ""); return; }
 			}
-			if (!check_written(out, wop, kind == "c_mem")) return;
+			if (!check_written(out, wop, kind == "c_mem", sA0)) return;
 		}
 	}
 	disk::set_config(disk::Config());
@@ -2006,6 +2055,10 @@ std::vector<Json> IoHarness::simplify(const Json &plan, const Json &aux) {
 		}
 	}
 	if (prop == "C06") {
+		if (plan.has("keys")) {
+			{ Json c = plan; c.erase("keys"); out.push_back(c); }
+			for (size_t k = 0; plan["keys"].size() > 1 && k < plan["keys"].size(); k++) { Json c = plan; auto &v = c["keys"].a; v.erase(v.begin() + (long)k); out.push_back(c); }
+		}
 		if (plan["eval"].geti("points") > 2) { Json c = plan; c["eval"]["points"] = Json(plan["eval"].geti("points") / 2); out.push_back(c); }
 	}
 	return out;
